@@ -221,13 +221,60 @@ def table_name(spec):
 def is_log(spec):
     return ('_log' in spec['wrapper']) or (spec['wrapper'] == 'opt' and spec.get('log_opt'))
 
+# ----------------------------------------------------------------------------------------------- how the caller spells a vector
+# A spec stores plain numbers (JSON); the FLAVOUR says in which Python / numpy type the caller hands them over.  The property is
+# about VALUES: whatever the container and the element type, fixed values come back unchanged and the model sees the numbers given.
+# The `int_*` flavours turn integer-valued entries into integers (an entry that is not integer-valued stays a float: a mixed list).
+FLOAT_FLAVOURS = ['list', 'tuple', 'array', 'npf_list']
+INT_FLAVOURS = ['int_list', 'int_tuple', 'int_array', 'npint_list', 'int32_array']
+SCALAR_FLAVOURS = ['scalar_float', 'scalar_int', 'scalar_npf', 'scalar_npint']      # a single free parameter handed over bare
+
+def _as_int(v):
+    return int(v) if (v is not None and float(v).is_integer()) else v
+
+def typed(values, flavour):
+    """the object a caller would pass for the numbers `values` (None entries = absent bounds stay None)"""
+    if values is None: return None
+    vals = [None if v is None else float(v) for v in values]
+    has_none = any(v is None for v in vals)
+    fl = flavour or 'list'
+    if fl.startswith('scalar_') and len(vals) == 1 and not has_none:
+        v = vals[0]
+        return {'scalar_float': float, 'scalar_int': lambda x: _as_int(x), 'scalar_npf': np.float64,
+                'scalar_npint': lambda x: np.int64(x) if float(x).is_integer() else np.float64(x)}[fl](v)
+    if fl == 'list' or fl.startswith('scalar_'): return list(vals)
+    if fl == 'tuple': return tuple(vals)
+    if fl == 'npf_list': return [None if v is None else np.float64(v) for v in vals]
+    if fl == 'float32_array' and not has_none: return np.array(vals, dtype=np.float32)
+    if fl == 'array': return list(vals) if has_none else np.array(vals, dtype=float)
+    if fl == 'int_list': return [_as_int(v) for v in vals]
+    if fl == 'int_tuple': return tuple(_as_int(v) for v in vals)
+    if fl == 'npint_list': return [v if (v is None or not v.is_integer()) else np.int64(v) for v in vals]
+    if fl in ('int_array', 'int32_array'):
+        if has_none: return [_as_int(v) for v in vals]
+        if all(v.is_integer() for v in vals): return np.array([int(v) for v in vals], dtype=(np.int32 if fl == 'int32_array' else np.int64))
+        return np.array(vals, dtype=float)
+    raise common.Infra('unknown flavour %r' % flavour)
+
+def np_kind(obj):
+    """the element type numpy infers for what the caller passed: 'int' or 'float' (what an array allocated "like" it would store)"""
+    try:
+        return 'int' if np.asarray(obj).dtype.kind in 'iub' else 'float'
+    except Exception:
+        return 'float'
+
+def types_of(spec):
+    return spec.get('types') or {}
+
 def caller_objects(spec):
     """the mutable objects the caller owns and passes in (func_args / func_kwargs only when the spec has them: otherwise the wrapper's
     own default objects are used, which is the common way of calling)"""
-    o = dict(p0=None if spec.get('p0') is None else list(spec['p0']),
-             lower_bound=None if spec.get('lower') is None else list(spec['lower']),
-             upper_bound=None if spec.get('upper') is None else list(spec['upper']),
-             fixed_params=fx_real(spec['fixed']))
+    ty = types_of(spec)
+    fx = fx_real(spec['fixed'])
+    o = dict(p0=typed(spec.get('p0'), ty.get('p0')),
+             lower_bound=typed(spec.get('lower'), ty.get('lower')),
+             upper_bound=typed(spec.get('upper'), ty.get('upper')),
+             fixed_params=tuple(fx) if (fx is not None and ty.get('fixed') == 'tuple') else fx)
     if spec.get('func_args') is not None: o['func_args'] = list(spec['func_args'])
     if spec.get('func_kwargs') is not None: o['func_kwargs'] = dict(spec['func_kwargs'])
     return o
